@@ -165,6 +165,69 @@ def replay_c11(v):
     return f
 
 
+def check_c09(v):
+    """C09: TLC computes the taint fixpoint of the TLA+ information-flow system instantiated with the
+    flow graph extracted from the current tree (three build configurations) and checks NoLeak."""
+    def f(r):
+        sdir = os.path.join(r.dir, "ssagraph")
+        shutil.copytree(os.path.join(v.HARNESS, "ssagraph"), sdir)
+        binp = os.path.join(r.dir, "ssagraph.bin")
+        rc, out = v.run(["go", "build", "-o", binp, "."], cwd=sdir, env=v.go_env(), timeout=900)
+        if rc != 0:
+            raise v.Inconclusive("graph extractor does not build:\n" + out[-2000:])
+        r.hook_mode = "not needed (static extraction)"
+        leaks_all = []
+        for target in ("lib", "wasm", "rest"):
+            gf = os.path.join(r.dir, "g_%s.json" % target)
+            rc, out = v.run([binp, "-target", target, "-repo", v.REPO, "-out", gf], cwd=r.dir, env=v.go_env(), timeout=900)
+            if rc != 0 or not os.path.exists(gf):
+                raise v.Inconclusive("extraction failed for target %s:\n%s" % (target, out[-2000:]))
+            g = json.load(open(gf))
+            wd = os.path.join(r.dir, "taint-" + target)
+            rep = os.path.join(wd, "report.json")
+            os.makedirs(wd, exist_ok=True)
+            rc, out, gen, dist = v.tlc(r, wd, "Taint.tla", "Taint.cfg", env_extra={"VERIF_GRAPH": gf, "VERIF_REPORT": rep}, workers=1, timeout=900)
+            if rc != 0 or not os.path.exists(rep):
+                raise v.Inconclusive("TLC failed on the taint system of %s:\n%s" % (target, out[-2000:]))
+            rp = json.loads(open(rep).readline())
+            r.states += dist
+            r.transitions += gen
+            r.traces += 1
+            r.evaluations += len(g["compares"]) + len(g["sanitizers"])
+            r.extra.setdefault("targets", {})[target] = {"functions": g["funcs"], "nodes": g["n"], "edges": g["edges"],
+                                                          "compare_sites": len(g["compares"]), "sanitizer_sites": len(g["sanitizers"]),
+                                                          "h_sources": g["srchpos"], "h_tainted": rp["nh"], "c_tainted": rp["nc"],
+                                                          "sanitizers": [s["pos"] for s in g["sanitizers"]]}
+            # non-vacuity: HMAC output exists, every constant-time comparison sits between H and C data
+            if rp["nsrch"] == 0:
+                raise v.Inconclusive("no HMAC output found in target %s (extraction lost the source)" % target)
+            if rp["unreached"] and not rp["leaks"]:
+                sites = [g["sanitizers"][i - 1]["pos"] for i in rp["unreached"]]
+                raise v.Inconclusive("constant-time comparison(s) not reached by both taints in %s: %s" % (target, sites))
+            if rp["nsan"] == 0 and not rp["leaks"]:
+                raise v.Inconclusive("no constant-time comparison site found in target %s although HMAC output reaches caller-visible code" % target)
+            r.nontrivial += sum(1 for c in g["compares"]) + rp["nsan"]
+            for i in rp["leaks"]:
+                c = g["compares"][i - 1]
+                leaks_all.append({"target": target, "pos": c["pos"], "kind": c["kind"], "fn": c["fn"]})
+            r.samples.append({"target": target, "sanitizer_sites": [s["pos"] + " " + s["kind"] for s in g["sanitizers"]],
+                              "some_compare_sites": [c["pos"] + " " + c["kind"] for c in g["compares"][:5]]})
+        if leaks_all:
+            d = os.path.join(v.ROOT, "replays", "C09")
+            os.makedirs(d, exist_ok=True)
+            key = hashlib.sha1(json.dumps(leaks_all, sort_keys=True).encode()).hexdigest()[:12]
+            path = os.path.join(d, key + ".json")
+            json.dump({"property": "C09", "leaks": leaks_all, "tier": r.tier, "seed": r.seed}, open(path, "w"), indent=1)
+            seen = set()
+            for l in leaks_all:
+                if l["pos"] in seen:
+                    continue
+                seen.add(l["pos"])
+                r.violations.append({"reason": "variable-time comparison (%s) between HMAC-derived data and submitted text at %s in %s [%s build]"
+                                     % (l["kind"], l["pos"], l["fn"], l["target"]), "replay": path, "event": l})
+    return f
+
+
 def install(v):
     C = v.CHECKS
     R = v.RULES
@@ -181,6 +244,8 @@ def install(v):
     C["C14"] = v.chk_lib(per_shard=3000)
     C["C15"] = v.chk_lib(per_shard=600)
 
+    C["C09"] = check_c09(v)
+    v.REPLAYS["C09"] = lambda r, rp: (check_c09(v)(r), bool(r.violations))[1]
     C["C11"] = check_c11(v)
     v.REPLAYS["C11"] = replay_c11(v)
     C["C17"] = v.chk_lib(per_shard=500)
